@@ -8,8 +8,8 @@
    integer that pipeline hands to the clip.  Everything else about the real generators is
    covered only by the differential/oracle run of tools/harness/C22.py. *)
 From Coq Require Import ZArith List Bool Lia.
-From VC2 Require Import Base.PyZ Gen.VC2Math Model.FileFormat Model.PicGen
-  Proofs.FileFormatProofs Proofs.PicGenProofs.
+From VC2 Require Import Base.PyZ Gen.StateRec Gen.VC2Math Gen.VideoParams Model.FileFormat Model.PicGen
+  Proofs.FileFormatProofs Proofs.PicGenProofs Proofs.DimsBridge.
 Import ListNotations.
 Open Scope Z_scope.
 
@@ -64,6 +64,34 @@ Theorem C22_component_dims : forall f pcm interlaced, (pcm = 0 \/ pcm = 1) -> re
   0 < fst (luma_dims_wh f pcm) /\ 0 < snd (luma_dims_wh f pcm) /\
   0 < fst (color_diff_dims_wh f pcm) /\ 0 < snd (color_diff_dims_wh f pcm).
 Proof. exact component_dims. Qed.
+
+(* tie T: the model's component sizes and depths are the fields the TRANSLATED pseudocode set_coding_parameters
+   (Gen/VideoParams.v, regenerated from pseudocode/video_parameters.py on every run) leaves in the state, for every
+   format and coding mode; the translated code does not raise *)
+Theorem C22_component_dims_match_source : forall f pcm,
+  (st_luma_width (coded_state f pcm), st_luma_height (coded_state f pcm)) = luma_dims_wh f pcm /\
+  (st_color_diff_width (coded_state f pcm), st_color_diff_height (coded_state f pcm)) = color_diff_dims_wh f pcm /\
+  st_luma_depth (coded_state f pcm) = depth_of_excursion (luma_excursion f) /\
+  st_color_diff_depth (coded_state f pcm) = depth_of_excursion (color_diff_excursion f) /\
+  set_coding_parameters_dom (state_of_pcm pcm) (vp_of_format f) = true.
+Proof.
+  exact (fun f pcm => match coded_state_fields f pcm with
+                      | conj a (conj b (conj c d)) => conj a (conj b (conj c (conj d (set_coding_parameters_dom_ok f pcm))))
+                      end).
+Qed.
+
+(* C22_component_dims and C22_clip_in_depth over the translated functions *)
+Theorem C22_component_dims_source : forall f pcm interlaced, (pcm = 0 \/ pcm = 1) -> regular f pcm interlaced = true ->
+  let st := coded_state f pcm in
+  generated_dims f pcm interlaced =
+    Some ((st_luma_width st, st_luma_height st), (st_color_diff_width st, st_color_diff_height st)) /\
+  0 < st_luma_width st /\ 0 < st_luma_height st /\ 0 < st_color_diff_width st /\ 0 < st_color_diff_height st.
+Proof. exact component_dims_source. Qed.
+
+Theorem C22_clip_in_depth_source : forall f pcm a, 0 <= luma_excursion f -> 0 <= color_diff_excursion f ->
+  0 <= clip_sample (luma_excursion f) a <= 2 ^ st_luma_depth (coded_state f pcm) - 1 /\
+  0 <= clip_sample (color_diff_excursion f) a <= 2 ^ st_color_diff_depth (coded_state f pcm) - 1.
+Proof. exact clip_in_depth_source. Qed.
 
 (* non-vacuity *)
 Example C22_example :
